@@ -400,8 +400,9 @@ class C07(Oracle):
         if k in ("DOO", "SOO", "SequOOL"):
             if not self.evals:
                 return
-            best = max(float(r) for _, _, r in self.evals)
-            mine = [float(r) for _, q, r in self.evals if same_point(q, p)]
+            # rewards are compared as they were handed in (exact for Python ints of any size), never through float()
+            best = max(r for _, _, r in self.evals)
+            mine = [r for _, q, r in self.evals if same_point(q, p)]
             if not mine:
                 ctx.fail("C07", "reco-never-evaluated", "%s recommends %s, which is not the point of any evaluated search cell (%d evaluated, best reward %r)" % (
                     k, [fhex(x) for x in p], len(self.evals), best))
